@@ -36,7 +36,8 @@ def _mesh_case(rng, small=False):
         f = list(rng.choice(faces))
         rng.shuffle(f)
         faces.append(f)
-    return {"verts": base, "faces": faces, "colors": rng.choice(["face", "vertex", "none"])}
+    return {"verts": base, "faces": faces,
+            "colors": rng.choice(["face", "vertex", "none", "face", "vertex", "painted_face", "painted_vertex", "texture"])}
 
 
 def cases(ctx):
@@ -68,6 +69,8 @@ def cases(ctx):
             c["merge_norm"] = rng.random() < 0.5
             c["digits_vertex"] = rng.choice([None, 0, 2])
             c["normals_cached"] = rng.random() < 0.6
+            c["digits_norm"] = rng.choice([None, None, 1, 2])
+            c["digits_uv"] = rng.choice([None, None, 4])
         yield c
 
 
@@ -86,6 +89,15 @@ def _build(c, which=None):
     elif d["colors"] == "vertex":
         m.visual.vertex_colors = np.array([[(i + off) % 251, (5 * i + 3) % 251, (7 * i) % 251, 255] for i in range(len(V))],
                                           dtype=np.uint8)
+    elif d["colors"] == "painted_face" and len(F):
+        # no stored colours, one in-place statement on the default array, nothing read afterwards
+        m.visual.face_colors[::2] = [200, 10, (7 + off) % 251, 255]
+    elif d["colors"] == "painted_vertex" and len(V):
+        m.visual.vertex_colors[::2] = [10, 200, (9 + off) % 251, 255]
+    elif d["colors"] == "texture":
+        # a UV per vertex; vertices sharing a position get nearby but different UVs (a texture seam)
+        uv = np.array([[(0.26 + 0.02 * i) % 1.0, (0.5 + 0.013 * i + 0.001 * off) % 1.0] for i in range(len(V))])
+        m.visual = trimesh.visual.TextureVisuals(uv=uv)
     m.face_attributes["fid"] = np.arange(len(F)) + off
     m.vertex_attributes["vid"] = np.arange(len(V)) + off
     return m
@@ -113,6 +125,8 @@ def _snap(m):
         o["fcol"] = np.asarray(m.visual.face_colors)[:, 0].tolist()
     elif kind == "vertex":
         o["vcol_tri"] = np.asarray(m.visual.vertex_colors)[:, 0][F].tolist() if len(F) else []
+    elif kind == "texture" and getattr(m.visual, "uv", None) is not None and len(m.visual.uv) == len(V):
+        o["uv_tri"] = np.round(np.asarray(m.visual.uv, dtype=np.float64)[F].reshape(len(F), 6), 12).tolist()
     return o
 
 
@@ -120,7 +134,8 @@ def run_case(c):
     import trimesh
     op = c["kind"]
     m = _build(c)
-    before = _snap(m)
+    # the snapshot is taken from a twin: reading colours of the operated mesh would promote an in-place paint
+    before = _snap(_build(c))
     res = {"before": before}
     if op == "faces_bool":
         m.update_faces(np.array(c["mask"], dtype=bool))
@@ -137,7 +152,12 @@ def run_case(c):
     elif op == "merge_opts":
         if c["normals_cached"]:
             m.vertex_normals
-        m.merge_vertices(merge_norm=c["merge_norm"], digits_vertex=c["digits_vertex"])
+        kw = {}
+        if c.get("digits_norm") is not None:
+            kw["digits_norm"] = c["digits_norm"]
+        if c.get("digits_uv") is not None:
+            kw["digits_uv"] = c["digits_uv"]
+        m.merge_vertices(merge_norm=c["merge_norm"], digits_vertex=c["digits_vertex"], **kw)
     elif op == "unique_faces":
         res["mask"] = [bool(x) for x in m.unique_faces()]
         m.update_faces(m.unique_faces())
@@ -244,6 +264,10 @@ def oracle(c, o):
         if b["ckind"] == "face":
             if a["ckind"] != "face" or a.get("fcol") != [b["fcol"][i] for i in exp]:
                 return bad("face-colour-misaligned")
+        if b.get("uv_tri") is not None and op in ("merge", "merge_opts", "unref", "unmerge", "faces_bool", "faces_int", "vertices_bool"):
+            # every corner keeps its texture coordinate (vertices on a seam differ in uv and must not be merged)
+            if a.get("uv_tri") != [b["uv_tri"][i] for i in exp]:
+                return bad("texture-coordinate-misaligned")
         if b["ckind"] == "vertex" and a["ckind"] == "vertex" and op not in ("merge", "merge_opts"):
             if a["vcol_tri"] != [b["vcol_tri"][i] for i in exp]:
                 return bad("vertex-colour-misaligned")
@@ -288,7 +312,11 @@ def _payload(c, which=None):
     keys = {}
     V = []
     for i, p in enumerate(d["verts"]):
-        k = keys.setdefault(tuple(p), len(keys))
+        key = tuple(p)
+        if d["colors"] == "texture":
+            # vertices are merged only when position AND texture coordinate agree (same formula as _build)
+            key = key + (round((0.26 + 0.02 * i) % 1.0, 4), round((0.5 + 0.013 * i + 0.001 * off) % 1.0, 4))
+        k = keys.setdefault(key, len(keys))
         V.append([i + off, k])
     return {"V": V, "F": d["faces"], "FA": [i + off for i in range(len(d["faces"]))]}
 
